@@ -12,7 +12,7 @@ All theorems quantify over EVERY history `ops` (any length, any topics/ids), EVE
 sub-step index `j` of the operation in flight (`crashAt {} ops k j` — also the points that are not transaction
 boundaries), for the service started empty with `PersistTopics` on (`{}`).
 -/
-import Kap.Proofs.C08Node
+import Kap.Proofs.C08NodeCrash
 namespace Kap.Props.C08
 open Kap.C08
 
@@ -291,6 +291,118 @@ anonymous topic and into the node: with `stateChangesOnly` the next CRITICAL poi
 announced — the handlers of the anonymous topic were last told OK while the id is CRITICAL. -/
 theorem node_two_topic_split_phantom :
     nodeMisled { bothTopics with sco := true } [.point "a" 3 1, .point "a" 0 2, .point "a" 3 3] 1 5 "anon" "a" = true := by
+  decide
+
+/-! ### The alert node: a process death INSIDE a point — the two findings as theorems
+Node with an anonymous topic `Ta` AND a named topic `Tn ≠ Ta`, every `stateChangesOnly`/`noRecoveries` setting,
+every sequence of points and graceful task restarts, a process death after ANY number `j` of sub-steps of ANY
+operation `k` (no hypothesis on `j`: boundaries, the notify→transaction windows of either topic, the gap between
+the two topics' transactions). `nodeMisledChar` (Kap/Spec/C08.lean) is a decidable predicate on
+(history, k, j, topic, id) that never runs the model. -/
+
+/-- **handlers_not_misled, exact.** Outside the characterised set the property holds: the handlers' last word
+(before the crash ++ after it) is the level the id ends at on that topic. Inside it the final state is EXACTLY
+the characterised deviation — last word, level in memory and level on disk are the predicted values, and they
+differ — so no other violation can hide behind the two findings. (`isAnon` selects the topic.) -/
+theorem node_handlers_not_misled_except_characterised (cfg : Cfg) (Ta Tn : String)
+    (ha : cfg.anon = some Ta) (hn : cfg.named = some Tn) (hne : Ta ≠ Tn)
+    (ops : List NOp) (k j : Nat) (isAnon : Bool) (id : String) :
+    let T := if isAnon then Ta else Tn
+    let r := nrecover cfg {} ops k j
+    (nodeMisledChar cfg.sco cfg.noRec ops k j isAnon id = false →
+      lastTold r.svc.told T id = r.svc.mem.level T id) ∧
+    (nodeMisledChar cfg.sco cfg.noRec ops k j isAnon id = true →
+      lastTold r.svc.told T id = (nodeDeviation cfg.sco cfg.noRec ops k j isAnon).1 ∧
+      r.svc.mem.level T id = (nodeDeviation cfg.sco cfg.noRec ops k j isAnon).2 ∧
+      r.svc.disk.level T id = (nodeDeviation cfg.sco cfg.noRec ops k j isAnon).2 ∧
+      (nodeDeviation cfg.sco cfg.noRec ops k j isAnon).1 ≠ (nodeDeviation cfg.sco cfg.noRec ops k j isAnon).2) := by
+  intro T r
+  -- what a NORMAL final cell gives
+  have hnorm : (∃ v, Norm cfg v (cellOf Ta Tn r id)) → lastTold r.svc.told T id = r.svc.mem.level T id := by
+    intro ⟨v, hv⟩
+    rw [level_eq_optLevel]
+    cases isAnon
+    · exact hv.tn.trans hv.mn.symm
+    · exact hv.ta.trans hv.ma.symm
+  cases hop : ops[k]? with
+  | none =>
+    have hc : nodeCrashEnd cfg.sco cfg.noRec ops k j = none := by simp [nodeCrashEnd, hop]
+    simp only [nodeMisledChar, hc, Bool.false_eq_true, false_imp_iff, and_true]
+    exact fun _ => hnorm (crash_other_final cfg Ta Tn ha hn hne ops k j (fun i l t => by rw [hop]; exact fun h => by cases h) id)
+  | some op =>
+    cases op with
+    | taskRestart =>
+      have hc : nodeCrashEnd cfg.sco cfg.noRec ops k j = none := by simp [nodeCrashEnd, hop]
+      simp only [nodeMisledChar, hc, Bool.false_eq_true, false_imp_iff, and_true]
+      exact fun _ => hnorm (crash_other_final cfg Ta Tn ha hn hne ops k j (fun i l t => by rw [hop]; exact fun h => by cases h) id)
+    | point i0 l t =>
+      obtain ⟨q, e, hce, hq, hnq⟩ := crash_point_end cfg Ta Tn ha hn hne ops k j i0 l t hop id
+      simp only [nodeMisledChar, nodeDeviation, hce]
+      refine ⟨fun hch => ?_, fun hch => ?_⟩
+      · by_cases hid : id = i0 ∧ q = true
+        · obtain ⟨a1, a2, a3, a4, a5, a6⟩ := hq hid.1 hid.2
+          simp only [hid.1, hid.2, beq_self_eq_true, Bool.and_self, Bool.true_and, bne_eq_false_iff_eq] at hch
+          rw [level_eq_optLevel]
+          cases isAnon
+          · simp only [NodeEnd.on, Bool.false_eq_true, if_false] at hch ⊢
+            exact a6.trans (hch.trans a3.symm)
+          · simp only [NodeEnd.on, if_true] at hch ⊢
+            exact a5.trans (hch.trans a1.symm)
+        · exact hnorm (hnq hid)
+      · simp only [Bool.and_eq_true, beq_iff_eq, bne_iff_ne, ne_eq] at hch
+        obtain ⟨⟨hid, hqt⟩, hdev⟩ := hch
+        obtain ⟨a1, a2, a3, a4, a5, a6⟩ := hq hid hqt
+        rw [level_eq_optLevel, level_eq_optLevel]
+        cases isAnon
+        · simp only [NodeEnd.on, Bool.false_eq_true, if_false] at hdev ⊢
+          exact ⟨a6, a3, a4, hdev⟩
+        · simp only [NodeEnd.on, if_true] at hdev ⊢
+          exact ⟨a5, a1, a2, hdev⟩
+
+/-- **A crash before the first handler notification of the point, or after its last transaction, misleads
+nobody** (`j ≤ 3`: the point is simply lost; `9 ≤ j`: it is complete) — the characterised set lies entirely inside
+sub-steps 4…8 of an announced point. -/
+theorem node_misled_only_inside_announced_point (sco noRec : Bool) (ops : List NOp) (k j : Nat)
+    (hj : j ≤ 3 ∨ 9 ≤ j) (isAnon : Bool) (id : String) :
+    nodeMisledChar sco noRec ops k j isAnon id = false := by
+  unfold nodeMisledChar nodeCrashEnd
+  cases hop : ops[k]? with
+  | none => rfl
+  | some op =>
+    cases op with
+    | taskRestart => rfl
+    | point i0 l t =>
+      have hr : ∀ a, reached a j = ⟨false, false, false, false⟩ ∨ reached a j = ⟨true, true, true, true⟩ := by
+        intro a
+        rcases hj with h | h
+        · left
+          have h4 : ¬ 4 ≤ j := by omega
+          have h5 : ¬ 5 ≤ j := by omega
+          have h8 : ¬ 8 ≤ j := by omega
+          have h9 : ¬ 9 ≤ j := by omega
+          simp [reached, h4, h5, h8, h9]
+        · cases a
+          · left; simp [reached]
+          · right
+            have h4 : 4 ≤ j := by omega
+            have h5 : 5 ≤ j := by omega
+            have h8 : 8 ≤ j := by omega
+            simp [reached, h4, h5, h8, h]
+      simp only
+      rcases hr (announces sco noRec ((groupLevel (ops.take k) i0).getD (nodeLevel noRec (ops.take k) i0)) l) with h | h <;>
+        rw [h] <;> cases isAnon <;> simp [NodeEnd.on, reconcile] <;> split <;> simp
+
+/-- the same two findings as before, now as INSTANCES of the characterisation: the split at the post-commit crash
+point between the two topics (anonymous topic's handlers end misled), and the named topic's notify→transaction
+window -/
+example :
+    nodeMisledChar true false [.point "a" 3 1, .point "a" 0 2, .point "a" 3 3] 1 5 true "a" = true ∧
+    nodeDeviation true false [.point "a" 3 1, .point "a" 0 2, .point "a" 3 3] 1 5 true = (0, 3) ∧
+    nodeMisledChar true false [.point "a" 3 1, .point "a" 0 2, .point "a" 3 3] 1 5 false "a" = false ∧
+    nodeMisledChar false false [.point "a" 3 1, .point "b" 1 2] 0 8 false "a" = true ∧
+    nodeDeviation false false [.point "a" 3 1, .point "b" 1 2] 0 8 false = (3, 0) ∧
+    nodeMisledChar false false [.point "a" 3 1, .point "a" 3 2] 0 8 false "a" = false ∧
+    nodeMisledChar false false [.point "a" 3 1, .point "b" 1 2] 0 6 false "a" = false := by
   decide
 
 /-! ### The alert node: general theorems at operation boundaries
